@@ -144,7 +144,9 @@ def same(a, b, rtol, atol):
         a_, b_ = np.asarray(a), np.asarray(b)
         if a_.dtype == object or b_.dtype == object:
             return a_.shape == b_.shape and all(same(x, y, rtol, atol) for x, y in zip(a_.ravel(), b_.ravel()))
-        return a_.shape == b_.shape and bool(np.allclose(a_, b_, rtol=rtol, atol=atol, equal_nan=True))
+        # entries that cancel to (almost) nothing are compared on the scale of the array they belong to
+        scale = float(np.max(np.abs(b_[np.isfinite(b_)]))) if b_.size and np.any(np.isfinite(b_)) else 0.0
+        return a_.shape == b_.shape and bool(np.allclose(a_, b_, rtol=rtol, atol=atol + rtol * scale, equal_nan=True))
     except Exception:
         return a == b
 
